@@ -36,6 +36,19 @@ def cases(tier):
             cfg = {'scenario': 'batch', 'n': 4, 'x': 2, 'members': [dict(kinds[c], values='sym', label='member %d' % ci) for ci, c in enumerate(combo)], 'verify_order': list(perm),
                    'actions': ['RecoverAndVerify', 'RecoverOnly', 'VerifyOnly']}
             out.append({'cfg': cfg, 'name': 'batch %s order %s' % (combo, list(perm))})
+    # several members of one batch carrying the SAME seed (a wallet's outputs): each result is that member's own mask; the same member listed twice
+    for (n, x) in ((8, 1), (4, 3)):
+        mk = lambda i, **kw: dict({'m': 1, 'cap': 1, 'seeded': True, 'seed_name': 'wallet', 'values': 'sym', 'label': 'member %d' % i}, **kw)
+        for members in ([mk(0), mk(1)], [mk(0), mk(1), mk(2)], [mk(0), {'m': 1, 'cap': 1, 'seeded': True, 'values': 'sym', 'label': 'member 1'}, mk(2)],
+                        [mk(0), {'m': 2, 'cap': 2, 'values': 'sym', 'label': 'member 1'}, mk(2)], [mk(0, name_idx=0, values=['9'], sym_bits=False), mk(0, name_idx=0, rng_replay_of=0, values=['9'], sym_bits=False)]):
+            cfg = {'scenario': 'batch', 'n': n, 'x': x, 'members': members, 'actions': ['RecoverAndVerify', 'RecoverOnly', 'VerifyOnly']}
+            out.append({'cfg': cfg, 'name': 'n%d x%d batch of %d, members %s share one seed' % (n, x, len(members), [i for i, mm in enumerate(members) if mm.get('seed_name') == 'wallet'])})
+    # boundary data: value == promise == 2^n - 1 (u64::MAX at 64 bits), value 0, promise 0 — recovered like any other
+    for (n, x) in ((64, 1), (8, 2), (32, 1)):
+        top = str((1 << n) - 1)
+        for (val, prom) in ((top, 'eq'), (top, None), (top, '1'), ('0', None), ('0', '0'), (str(1 << (n - 1)), 'eq')):
+            cfg = {'scenario': 'batch', 'n': n, 'x': x, 'members': [{'m': 1, 'cap': 1, 'seeded': True, 'values': [val], 'promises': [prom], 'sym_bits': False}], 'actions': ['RecoverAndVerify', 'RecoverOnly', 'VerifyOnly']}
+            out.append({'cfg': cfg, 'name': 'n%d x%d value %s promise %s' % (n, x, val, prom)})
     return out
 
 
